@@ -62,6 +62,9 @@ def add_constraints(card, rng):
     cfg = card["config"]
     res = card["meta"]["resonances"]
     for r in res:
+        if r["j2"] % 2 == 0 and rng.random() < 0.3:
+            # a declared C quantum number: without c_break: False on a decay it selects nothing, but it must survive export/import
+            cfg["particle"][r["name"]]["C"] = int(rng.choice([-1, 1]))
         if r["model"] == "one":
             continue  # no mass / width parameters
         u = rng.random()
